@@ -429,7 +429,15 @@ fn real_path(
                 };
                 let wants: Vec<Answer> = zones.iter().map(|z| want(z, sc.secs as i64)).collect();
                 let all_judged = wants.iter().all(|a| matches!(a, Answer::Offset(_)));
-                if let (true, Answer::Offset(off)) = (all_judged, wants[wants.len() - 1]) {
+                // how a value applies an offset of a day or more is outside every listed property
+                // (`Offset` documents +-23:59:59); only the resolved offset itself is judged then
+                let within_a_day = wants.iter().all(|a| matches!(a, Answer::Offset(o) if o.abs() < 86_400));
+                if !within_a_day {
+                    if let Some(s) = stats.as_deref_mut() {
+                        s.inc("c18.unjudged.getters_with_offset_of_a_day_or_more");
+                    }
+                }
+                if let (true, true, Answer::Offset(off)) = (all_judged, within_a_day, wants[wants.len() - 1]) {
                     let local = $r1.secs as i64 + off as i64;
                     let exp = $expect(local, off);
                     let any_match = wants.iter().any(|a| match a {
